@@ -427,6 +427,20 @@ func TestActiveChecks(t *testing.T) {
 		up := h.VerifUpstreams()[0]
 		var history []string
 		isUp := u1.ln != nil
+		// a long-lived proxied connection may be open while the peer stops accepting new ones (a backend that is
+		// shutting down gracefully): the checks are about new connections and must notice all the same
+		var hd *held
+		if isUp && rapid.Bool().Draw(rt, "holdProxiedConnection") {
+			time.Sleep(2 * iv)
+			a := u1.accepts.Load()
+			hd = connect(h, true)
+			if !hx.Eventually(3*time.Second, time.Millisecond, func() bool { return u1.accepts.Load() > a }) {
+				_ = hd.release()
+				return
+			}
+			history = append(history, "proxied connection held open")
+			defer func() { _ = hd.release() }()
+		}
 		for s := rapid.IntRange(2, 6).Draw(rt, "toggles"); s > 0; s-- {
 			since := time.Now()
 			time.Sleep(3*iv + 150*time.Millisecond)
@@ -442,14 +456,22 @@ func TestActiveChecks(t *testing.T) {
 				}
 			}
 			if isUp {
-				u1.down()
+				if hd != nil {
+					u1.stopListening() // established connections stay
+				} else {
+					u1.down()
+				}
 				isUp = false
 			} else if u1.up(rt) {
 				isUp = true
 			}
 			history = append(history, fmt.Sprintf("up=%v", isUp))
 		}
-		hx.Case(hx.Hash("active", iv, fmt.Sprint(history)), true, "C11/active-checks")
+		cl := []string{"C11/active-checks"}
+		if hd != nil {
+			cl = append(cl, "C11/active-checks-with-open-connection")
+		}
+		hx.Case(hx.Hash("active", iv, fmt.Sprint(history)), true, cl...)
 		hx.Sample("active", map[string]any{"interval": iv.String(), "history": history})
 	})
 }
